@@ -2,7 +2,19 @@ import AFV.Driver.Proto
 namespace AFV.Driver.C04
 open Lean AFV.Proto
 
-/-- Handler for property C04 requests (stub: not implemented yet). -/
-def handle (_req : Json) : Json := err "unimplemented"
+def maxOf (l : List Int) : Int := l.foldl max 0
+/-- Σ over groups of the maximum of each group (latency: Σ_einsum max_component; energy: singleton groups). -/
+def sumOfMax (gs : List (List Int)) : Int := (gs.map maxOf).foldl (· + ·) 0
+
+def handle (req : Json) : Json :=
+  match (field? req "op").bind getStr? with
+  | some "sumOfMax" =>
+    match (field? req "groups").bind getArr? with
+    | some arr =>
+      match arr.toList.mapM intList? with
+      | some gs => ofInt (sumOfMax gs)
+      | none => err "malformed"
+    | none => err "malformed"
+  | _ => err "bad-op"
 
 end AFV.Driver.C04
